@@ -200,6 +200,9 @@ class Opaque:
         self.why = why
 
 
+MODULE_NAMES = {"np", "numpy", "math", "scipy", "spsp", "special", "config", "fft_manager", "pyfftw", "numba", "os", "sys"}
+
+
 class Exec:
     def __init__(self, fn_node, env, aliases=None, frozen=()):
         self.fn = fn_node
@@ -499,6 +502,17 @@ class Exec:
             elif isinstance(s, (ast.Expr, ast.Raise, ast.Return, ast.Pass, ast.Import, ast.ImportFrom)):
                 if isinstance(s, ast.Return):
                     self.probes.append(("return", tuple(path), self.try_ev(s.value) if s.value else None))
+                elif isinstance(s, ast.Expr) and isinstance(s.value, ast.Call):
+                    # a call evaluated for its side effect: anything it can reach through its receiver or its
+                    # arguments (x.fill(0), x.sort(), np.copyto(x, y), np.multiply(x, 2, out=x), helper(x)) may have
+                    # been modified in place.  Logging / warnings are the only calls taken to be pure.
+                    ftxt = ast.unparse(s.value.func)
+                    if not ftxt.startswith(("logger.", "logging.", "warnings.", "print", "log.")):
+                        for sub in ast.walk(s.value):
+                            if isinstance(sub, ast.Name) and isinstance(sub.ctx, ast.Load) and sub.id in self.env \
+                                    and sub.id not in MODULE_NAMES and sub.id not in self.frozen:
+                                self.env[sub.id] = Opaque("possibly modified in place by the call `%s`" % ast.unparse(s.value)[:60])
+                                self.inplace.append((sub.id, ast.unparse(s.value)[:80], tuple(path)))
             else:
                 # with/try/while...: not part of any kernel; names assigned inside become opaque
                 for sub in ast.walk(s):
@@ -1110,6 +1124,15 @@ def tables_group():
                 if any(k in v for k in ("fftshift(", "ifftshift(", "np.pad(", "fft2(", "ifft2(", "np.linspace(", "np.meshgrid(", "np.squeeze(")) or \
                         t in ("conc", "flx", "pad_width", "dlx, dly", "tfftq0") or isinstance(tg, (ast.Subscript, ast.Attribute)):
                     plumb.append((t, v))
+        # statements evaluated for their side effect only (x.fill(..), np.copyto(..), out= calls): none in the pinned source;
+        # logging and warnings are the only calls taken to be pure
+        for n in ast.walk(sfn2):
+            if isinstance(n, ast.Expr) and isinstance(n.value, ast.Call):
+                ftxt = ast.unparse(n.value.func)
+                if not ftxt.startswith(("logger.", "logging.", "warnings.", "print", "log.")):
+                    plumb.append(("<side-effect call>", ast.unparse(n.value)))
+            if isinstance(n, (ast.Delete, ast.Global, ast.Nonlocal, ast.With, ast.While, ast.Try)):
+                plumb.append(("<%s>" % type(n).__name__, ast.unparse(n).split("\n")[0]))
         plumb.sort()
         lines.append("def solverPlumbing : List (String × String) := [%s]" % ", ".join('("%s", "%s")' % (a.replace('"', "'"), b.replace('"', "'")) for a, b in plumb))
         g.report["solverPlumbing"] = "ok"
